@@ -99,6 +99,8 @@ def parseMethod : String → Option Method
   | "c" => some .copy
   | "a" => some .borrow   -- anchored = borrow + push_anchor; same pipe ops
   | "r" => some .borrow   -- encode_read / decode_read = read_n + anchored
+  | "S" => some .borrow   -- `ZeroCopySink::append_borrow for Encoder` = `encode`   (encoder only)
+  | "T" => some .copy     -- `ZeroCopySink::append_copy for Encoder` = `encode_copy` (encoder only)
   | _ => none
 
 def runEmits (pipe : Pipe) (es : List Emit) : Pipe := Pipe.run pipe (es.map (·.op))
@@ -196,6 +198,11 @@ def step (s : St) (ws : List String) : St × List String :=
   | _ =>
   if s.await then ({ s with await := false, head := "", phase := .done }, ["missing-seen"]) else
   match ws with
+  -- `hcobs::find_stuff_sequence` called directly (track apigaps); no state
+  | ["find", hex] =>
+    match parseHex hex with
+    | some d => (s, ["find=" ++ (match findStuff d with | some i => toString i | none => "none")])
+    | none => (s, ["bad-op"])
   | ["params", "prod"] => startRun s prodParams
   | ["params", a, b] =>
     match a.toNat?, b.toNat? with
@@ -217,7 +224,7 @@ def step (s : St) (ws : List String) : St × List String :=
       | _, _ => (s, ["bad-op"])
     else (s, ["bad-op"])
   | ["dec", m, hex] =>
-    if !s.isEnc ∧ s.phase = .live then
+    if !s.isEnc ∧ s.phase = .live ∧ m ≠ "S" ∧ m ≠ "T" then
       match parseMethod m, parseHex hex with
       | some m, some d =>
         match Dec.callP s.p m s.ds d with
